@@ -67,6 +67,12 @@ func c11Gen(t *rapid.T) c11Case {
 		c.Opts["patternless"] = "true"
 	}
 	small := rapid.IntRange(0, 3).Draw(t, "small") > 0
+	if !small && !c.bytes() && rapid.IntRange(0, 5).Draw(t, "capped") == 0 {
+		// all runes at or below a boundary of the generated rune map (2048: direct table vs
+		// compressed map)
+		reCapRune = []rune{0x7ff, 0x800, 0x801, 0xfff, 0x1000}[rapid.IntRange(0, 4).Draw(t, "cap")]
+		defer func() { reCapRune = 0 }()
+	}
 	base, named, nsc := c09GenRules(t, c.bytes(), 5, small)
 	if c.fold() {
 		for i := range base {
@@ -82,6 +88,9 @@ func c11Gen(t *rapid.T) c11Case {
 		if rapid.IntRange(0, 5).Draw(t, "space") == 0 {
 			r.Space = true
 			r.Token = fmt.Sprintf("sp%d", i)
+		} else if i > 0 && rapid.IntRange(0, 11).Draw(t, "explicitInvalid") == 0 {
+			// an explicit rule for invalid_token (its matches are reported as invalid tokens)
+			r.Token = "invalid_token"
 		}
 		if nsc > 1 && rapid.IntRange(0, 3).Draw(t, "switch") == 0 {
 			r.Next = rapid.IntRange(0, nsc-1).Draw(t, "next")
@@ -316,8 +325,12 @@ func c11Expect(c *c11Case, src string) (toks []c11Tok, usedKeyword, usedBacktrac
 		}
 		lens, _ := respec.MatchLens(classRE, respec.Env{Bytes: bytes, Refs: c.Named}, kw)
 		if len(lens) > 0 && lens[len(lens)-1] == len(kw) {
-			if _, dup := keywords[kw]; !dup {
+			if first, dup := keywords[kw]; !dup {
 				keywords[kw] = &c.Rules[i]
+			} else if first.Token != c.Rules[i].Token || first.Space != c.Rules[i].Space || first.Next != c.Rules[i].Next {
+				// two different rules for the same keyword text: which one the class yields is not
+				// defined (rule priorities do not take part in keyword lookup) — outside the domain
+				return nil, false, false, false, false
 			}
 			specialised[i] = true
 		}
@@ -521,6 +534,13 @@ func (c *c11Case) inputs() []string {
 			if len(kws) > 0 {
 				s = kws[rnd.next(len(kws))] + " " + s + " " + kws[rnd.next(len(kws))] + "g\n" + kws[rnd.next(len(kws))]
 			}
+		case 5:
+			// the other case of every letter (matters under caseInsensitive / (?i) groups)
+			if up := strings.ToUpper(s); up != s {
+				s = up
+			} else {
+				s = strings.ToLower(s)
+			}
 		}
 		out = append(out, s)
 	}
@@ -611,7 +631,7 @@ func TestC11(t *testing.T) {
 		ID:        "C11",
 		Rule:      "lexer-only grammars (genParser = false) rendered from rule specs: 1..5 regex rules (C09 generator: literals, classes, repetition, alternation, named patterns, (?i)), priorities, 1..3 start conditions switched by rule actions { l.State = StateX }, several rules per token, (space) rules, a whitespace rule, and in 2/3 of the case-sensitive grammars a (class) rule [g-q...]+ (ASCII, Latin-1, or \\p{L}/bytes>=0x80 so that the symbol map exceeds 2048 and the compressed rune map is generated) with 1..12 keyword rules incl. non-ASCII keywords; options tokenLine/tokenColumn/tokenLineOffset/scanBytes/nonBacktracking/caseInsensitive/skipByteOrderMark each default/true/false. The generated lexer is built and run on ~40 inputs (rule alphabets, keywords next to identifiers, BOM prefix, CR/LF, newlines inside input, invalid UTF-8); every (token, start, end, line, column) up to two EOIs must equal the reference tokenization computed with the set-based regex matcher + keyword substitution + space skipping + invalid-token rule. Non-trivial: an input with a keyword hit, a fallback past an accepted prefix, or a rune > 0x7ff; distinct by (rules, options).",
 		Assume:    []string{"inputs on which two rules of equal priority tie are outside the domain", "{eoi} patterns and explicit invalid_token/eoi rules are not generated"},
-		Quick:     80, Thorough: 1600, BatchSize: 80,
+		Quick:     192, Thorough: 2400, BatchSize: 80,
 		Gen:       c11Gen,
 		Unit:      c11Unit,
 		Check:     c11Check,
